@@ -275,6 +275,16 @@ def pt_post(prop):
         if prop == 'C06':
             if exitstep:
                 return   # the manager is stopping: bookkeeping of this event is moot
+            # a generator parked in a wait state is resumed by _on_done / _on_tick from what the state remembers: the event the task
+            # belongs to, the generator itself and the caller to hand the result to - all three must be recorded when it is parked
+            byst = {}
+            for which, o, v_ in log(I, 'PARK'):
+                byst.setdefault(id(o), {'o': o})[which] = v_
+            for d_ in byst.values():
+                cover(I, 'parked')
+                ok_ = all(k_ in d_ for k_ in ('task', 'parent', 'task_event')) and isinstance(d_.get('task_event'), VRef)
+                I.oblige('wait.parked_state_remembers_event_task_and_caller', z3.BoolVal(False) if not ok_ else d_['task_event'].t == event.t,
+                         detail='recorded on the wait state: %s' % sorted(k_ for k_ in d_ if k_ != 'o'))
             sched, parked, parked_parent = live_after(I)
             if any(st_[1] in ('send', 'throw') and st_[2] in (2, 4) for st_ in steps) and 'parent' not in sched:
                 parked_parent = False     # the caller itself finished/failed when it was resumed
@@ -325,7 +335,7 @@ def pt_spec(prop, clause, cover_, step_hook=None, replay=None):
         prop, FILE, 'Manager.processTask', setup, pt_post(prop), name='Manager.processTask', fields=T_FIELDS, field_alias=T_ALIAS,
         calls=PT_CALLS, classes=EVENT_CLASSES | set(KINDS), cover=cover_, clause=clause, replay=replay, falsy_classes={'Yielded'},
         attr_hooks={'event.channels': lambda I: VTuple([I.st.ghost['CHAN']])},
-        setattr_hooks={'v_value': s_setvalue_hook, 'st_task': park_hook('task'), 'st_parent': park_hook('parent')},
+        setattr_hooks={'v_value': s_setvalue_hook, 'st_task': park_hook('task'), 'st_parent': park_hook('parent'), 'task_event': park_hook('task_event')},
     )
 
 
